@@ -20,6 +20,7 @@ EXPLANATION = (
     "agree on names and arity; (6) Interval's component properties read the PreciseDiff, in_months = "
     "years*12+months, __neg__ swaps the endpoints. NOT decided: that the three-way month branch is right for "
     "every (day, month-length) coincidence - both back ends are only shown to implement the same branch."
+    ' Also: the native copies built in Interval.__init__ for precise_diff carry every field (RECON); the pure-Python UTC shift moves each end point whenever its own offset is non-zero, under `not in_same_tz or total_days == 0`; the compiled UTC normalisation of both end points equals, path summary by path summary, a reference model (carries at 60/60/24, then the date rolled into month/year), and DateTimeInfo is ordered by the full broken-down time.'
 )
 
 ROLE_ORDER = ["microsecond", "second", "minute", "hour", "day", "month", "year"]
@@ -463,35 +464,45 @@ def _rs_utc_reference(ctx, mir, f: mirfront.MirFn, sf) -> None:
     for name, g in mir.fns.items():
         if any(s.dest and s.dest.startswith(f"((*_1).{idx['month']}:") for _, s in g.all_stmts()) and "DateTimeInfo" in g.sig:
             rollers[name] = g
-    can = Canon({names[d1]: "X", "dt1dt": "XD", "dt1": "XARG"})
-    sym = mirsym.Sym(f, sf, atomic={"total_days", "in_same_tz", "sign"})
-    got = set()
-    try:
-        for p in sym.run(s1, {s2}):
-            conds = []
-            isdt = None
-            for v, key in p.conds:
-                cb = mirsym.cond_bool(v, key)
-                if cb is None:
+    end2 = None
+    for bi in sorted(f.blocks):
+        if bi > s2 and any(s_.op == "call" and ("partial_cmp" in s_.callee or "::gt" in s_.callee) for s_ in f.blocks[bi].stmts):
+            end2 = bi
+            break
+    want = _ref_summaries(_REF_SHIFT, Canon({}), 7)
+    for dl, who, start, stop in ((d1, "1", s1, s2), (d2, "2", s2, end2)):
+        if stop is None:
+            ctx.unverified("UTCSHIFT.rs", f"rs:precise_diff/dt{who}-to-utc", "end of the region not found", rel)
+            continue
+        can = Canon({names[dl]: "X", f"dt{who}dt": "XD", f"dt{who}": "XARG"})
+        sym = mirsym.Sym(f, sf, atomic={"total_days", "in_same_tz", "sign"})
+        got = set()
+        try:
+            for p in sym.run(start, {stop}):
+                conds = []
+                isdt = None
+                for v, key in p.conds:
+                    cb = mirsym.cond_bool(v, key)
+                    if cb is None:
+                        continue
+                    c = can.cond(cb[0], cb[1])
+                    if c[0] == "X.is_datetime":
+                        isdt = c[1]
+                        continue
+                    if "discriminant(" in c[0]:
+                        continue
+                    conds.append(_int_cond(c))
+                if not isdt or p.end != stop:
                     continue
-                c = can.cond(cb[0], cb[1])
-                if c[0] == "X.is_datetime":
-                    isdt = c[1]
-                    continue
-                if "discriminant(" in c[0]:
-                    continue
-                conds.append(_int_cond(c))
-            if not isdt or p.end != s2:
-                continue
-            fld = lambda n: p.state.get(f"FIELD:({d1}.{idx[n]}: i32)")      # noqa: E731
-            vals = [can.s(fld(n)) if fld(n) is not None else f"X.{n}" for n in ("day", "hour", "minute", "second", "microsecond", "total_seconds")]
-            rolled = any(any(r.endswith("::" + mirsym.short_callee(c)) for r in rollers) for c, _a in p.calls)
-            got.add((frozenset(conds), tuple(vals) + ("1" if rolled else "0",)))
-        want = _ref_summaries(_REF_SHIFT, Canon({}), 7)
-        _triage(ctx, "UTCSHIFT.rs", "rs:precise_diff/dt1-to-utc", got, want,
-                "fields minus offset with carries at 60/60/24 into the next unit, then the date rolled over", rel)
-    except (core.Unsupported, AssertionError, AttributeError) as e:
-        ctx.unverified("UTCSHIFT.rs", "rs:precise_diff/dt1-to-utc", str(e), rel)
+                fld = lambda n: p.state.get(f"FIELD:({dl}.{idx[n]}: i32)")      # noqa: E731,B023
+                vals = [can.s(fld(n)) if fld(n) is not None else f"X.{n}" for n in ("day", "hour", "minute", "second", "microsecond", "total_seconds")]
+                rolled = any(any(r.endswith("::" + mirsym.short_callee(c)) for r in rollers) and a_ and un(a_[0]) == names[dl]
+                             for c, a_ in p.calls)
+                got.add((frozenset(conds), tuple(vals) + ("1" if rolled else "0",)))
+            _triage(ctx, "UTCSHIFT.rs", f"rs:precise_diff/dt{who}-to-utc", got, want,
+                    "fields minus offset with carries at 60/60/24 into the next unit, then the date rolled over", rel)
+        except (core.Unsupported, AssertionError, AttributeError) as e:
+            ctx.unverified("UTCSHIFT.rs", f"rs:precise_diff/dt{who}-to-utc", str(e), rel)
     if not rollers:
         ctx.ob("UTCSHIFT.roll", "rs:precise_diff/day-rollover", False,
                "no function rolls a day that left its month into the month and year: after the shift to UTC the day can be 0 or one past "
